@@ -135,9 +135,19 @@ func styleScenario(prepR, execR, postR, builder, inFlow bool) Scenario {
 			}
 			return "done", nil
 		}
+		// a fallback and a retry budget may be configured as well: exec did not fail (an error
+		// Result with a nil error is a result), so neither may come into play
+		withFb := core.Choose(2) == 1
+		fbF := func(p any, e error) (any, error) {
+			core.Problem("the fallback was invoked (with error %v) although exec returned without error", e)
+			return "recovered-by-fallback", nil
+		}
 		var node flyt.Node
 		if builder {
 			b := flyt.NewNode()
+			if withFb {
+				b = b.WithExecFallbackFunc(fbF).WithMaxRetries(2)
+			}
 			if prepR {
 				b = b.WithPrepFunc(prepFR)
 			} else {
@@ -156,6 +166,9 @@ func styleScenario(prepR, execR, postR, builder, inFlow bool) Scenario {
 			node = b
 		} else {
 			var o []any
+			if withFb {
+				o = append(o, flyt.WithExecFallbackFunc(fbF), flyt.WithMaxRetries(2))
+			}
 			if prepR {
 				o = append(o, flyt.WithPrepFunc(prepFR))
 			} else {
@@ -237,6 +250,14 @@ func genC17(tier string) []Scenario {
 			sc := batchScn{name: fmt.Sprintf("styles-batch n=%d c=%d anyExec=%v", n, c, anyExec), n: n, c: c, budget: 1, shape: shResults, yield: c > 0, anyExec: anyExec,
 				execMenu: menu, postMenu: postX, bound: bd, chkPositional: true}
 			out = append(out, sc.scenario())
+			// a batch of exactly one item is a batch like any other; and with a fallback / retry
+			// budget configured an error Result returned without error is still not a failure
+			sc1 := batchScn{name: fmt.Sprintf("styles-batch n=1 c=%d anyExec=%v", c, anyExec), n: 1, c: c, budget: 1, shape: shResults, yield: c > 0, anyExec: anyExec,
+				execMenu: menu, postMenu: postX, bound: 0, chkPositional: true}
+			out = append(out, sc1.scenario())
+			sc2 := batchScn{name: fmt.Sprintf("styles-batch n=2 c=%d anyExec=%v budget=2 fallback=true", c, anyExec), n: 2, c: c, budget: 2, fb: true, shape: shResults, yield: c > 0, anyExec: anyExec,
+				execMenu: menu, fbMenu: fbOkOrErr, postMenu: postX, bound: 0, chkPositional: true, chkPerItem: true}
+			out = append(out, sc2.scenario())
 		}
 	}
 	return out
